@@ -185,6 +185,8 @@ def _hand_msg_sample(rng):
 
 @contract('bridge_env.network_bridge.client.Client.parse_hand', props=P + ['C11'])
 class _parse_hand:
+    at_calls = 'abstract'
+    abstract_raises = (Exception,)
     fresh_params = _hand_msg
     sample_params = _hand_msg_sample
     returns = Tuple(CardSet(), Tuple(*[Int() for _ in range(52)]))
@@ -215,6 +217,8 @@ def _cards_msg_sample(rng):
 
 @contract('bridge_env.network_bridge.client.Client.parse_cards', props=P + ['C11'])
 class _parse_cards:
+    at_calls = 'abstract'
+    returns = Text(excl='\r')
     fresh_params = _cards_msg
     sample_params = _cards_msg_sample
     modifies = []
@@ -243,6 +247,7 @@ def _header_msg_sample(rng):
 
 @contract('bridge_env.network_bridge.client.Client.parse_board', props=P + ['C11'])
 class _parse_board:
+    at_calls = 'abstract'
     fresh_params = _header_msg
     sample_params = _header_msg_sample
     returns = Tuple(Int(), Enum(Player), Enum(Vul))
@@ -269,6 +274,8 @@ def _teams_msg_sample(rng):
 
 @contract('bridge_env.network_bridge.client.Client.parse_team_names', props=P + ['C20'])
 class _parse_team_names:
+    at_calls = 'abstract'
+    returns = Tuple(Text(excl=NAME_EXCL), Text(excl=NAME_EXCL))
     fresh_params = _teams_msg
     sample_params = _teams_msg_sample
     modifies = []
